@@ -164,28 +164,7 @@ def rules(ctx, db):
         for f, bb in lk:
             ctx.ob("R3", "guard-leaked-only-on-hand-over:" + db.root_fn(f).name, db.root_fn(f).short == "into_result",
                    "the guard is defused only when the result (and with it the buffer id) is handed to the consumer", f)
-    # ---------------- R4
-    if any(n.startswith("compio_runtime::") for n in db.adts):
-        pn = db.methods(self_adt=r"^compio_runtime::future::stream::SubmitMultiManaged$", name="poll_next", trait=r"Stream$")
-        if not pn:
-            ctx.missing("R4", "SubmitMultiManaged::poll_next")
-        for f in pn:
-            bid = [(bb, t) for bb, t in calls(f, r"Extra::buffer_id$")]
-            tk2 = [bb for bb, _ in calls(f, r"buffer_pool::BufferPool::take$")]
-            ok = len(bid) == 1 and len(tk2) == 1
-            if ok:
-                # from the Continue edge of `buffer_id()?` no return is reachable without passing take
-                okp = False
-                for (sbb, targets, ow) in discr_edges(f, bid[0][0]):
-                    c = targets.get("0")
-                    if c is not None:
-                        reach = f.cfg.reach_from_block(c, avoid=set(tk2))
-                        if not any(r in reach for r in f.cfg.returns):
-                            okp = True
-                ok = okp
-            ctx.ob("R4", "id-becomes-handle-before-any-error", ok,
-                   "once the completion's buffer id is known, BufferPool::take runs before any `?` can return: the "
-                   "handle's Drop then returns the buffer even if the result is an error", f)
+    stream_adapter_rules(ctx, db, "R4")
     # ---------------- R5
     pd = db.methods(self_adt=r"^compio_driver::Proactor$", name="drop", trait=r"Drop$")
     if not pd:
@@ -242,6 +221,54 @@ def rules(ctx, db):
             ctx.ob("R5", "unregister-before-munmap", bool(un) and bool(mu) and f.cfg.dominates(un[0], mu[0]) and
                    guarded_by_variant(f, mu[0], r"unregister_buf_ring$", 0) is not None,
                    "the buffer ring is unregistered from the kernel (successfully) before its memory is unmapped", f)
+
+
+def stream_adapter_rules(ctx, db, RID="R4"):
+    """Rules on SubmitMultiManaged::poll_next (shared by C07-R4 and C14-R5)."""
+    # ---------------- R4
+    if any(n.startswith("compio_runtime::") for n in db.adts):
+        pn = db.methods(self_adt=r"^compio_runtime::future::stream::SubmitMultiManaged$", name="poll_next", trait=r"Stream$")
+        if not pn:
+            ctx.missing(RID, "SubmitMultiManaged::poll_next")
+        for f in pn:
+            bid = [(bb, t) for bb, t in calls(f, r"Extra::buffer_id$")]
+            tk2 = [bb for bb, _ in calls(f, r"buffer_pool::BufferPool::take$")]
+            ok = len(bid) == 1 and len(tk2) == 1
+            if ok:
+                # from the Continue edge of `buffer_id()?` no return is reachable without passing take
+                okp = False
+                for (sbb, targets, ow) in discr_edges(f, bid[0][0]):
+                    c = targets.get("0")
+                    if c is not None:
+                        reach = f.cfg.reach_from_block(c, avoid=set(tk2))
+                        if not any(r in reach for r in f.cfg.returns):
+                            okp = True
+                ok = okp
+            # the item's own io result is propagated (`res?`) only after the buffer was taken (live op) or after the
+            # finished inner stream was taken out (terminated op)
+            pn_ = [bb for bb, _ in calls(f, r"poll_next_unpin$|Stream::poll_next$")]
+            inner_take = [bb for bb, t in calls(f, r"core::option::Option::<T>::take$") if "inner" in receiver_field(f, t)]
+            okr = True
+            nres = 0
+            for bb, t in calls(f, r"core::ops::try_trait::Try::branch$|Try>::branch$"):
+                p0 = op_place(t["args"][0])
+                if p0 is None:
+                    continue
+                locs, cr, _ = data_deps(f, p0["l"])
+                names = [ct.get("fn", "") + " " + (ct.get("rfn") or "") for _, ct in cr]
+                from_item = any("poll_next" in n for n in names)
+                own = any(("buffer_id" in n) or ("BufferPool::take" in n) for n in names)
+                if from_item and not own:
+                    nres += 1
+                    if dominated_by_any(f, tk2 + inner_take, bb) is None:
+                        okr = False
+            ctx.ob(RID, "item-error-propagated-after-take", nres >= 1 and okr,
+                   "an error carried by a stream item is returned only after the selected buffer was turned into a handle "
+                   "(live op) or the finished inner stream was taken out (final item); returning earlier leaks the buffer id "
+                   "and leaves a finished inner stream that the next poll mistakes for end-of-stream", f)
+            ctx.ob(RID, "id-becomes-handle-before-any-error", ok,
+                   "once the completion's buffer id is known, BufferPool::take runs before any `?` can return: the "
+                   "handle's Drop then returns the buffer even if the result is an error", f)
 
 
 def rules_all(ctx, db):
